@@ -266,6 +266,7 @@ def _mk_group(sname):
                            clause="after set_used_res(%s): AmplitudeModel(data) == sum_helicities |sum of the chains containing one of them|^2" % (list(sel),))
             amp.set_used_chains(list(range(n)))
             ctx.eq("restored/density", amp(sdata), expect(list(range(n)))[1], clause="after selecting all chains again: the full density")
+            ctx.holds("full/density_nonneg", amp(sdata) >= 0.0, clause="AmplitudeModel(data) >= 0 for all chain amplitudes (C01: the density is non-negative)")
         finally:
             core.DecayChain.get_amp = orig
             dg.set_used_chains(list(range(len(dg.chains))))
@@ -281,7 +282,7 @@ for _s in STRUCTS:
           ["amp.core:DecayChain.get_amp", "amp.core:DecayChain.get_cp_amp_total", "amp.core:DecayChain.get_amp_total", "einsum:einsum", "einsum:tensor_einsum_reduce_sum",
            "amp.core:DecayGroup.get_amp", "variable:Variable.__call__"],
           env="shim", kind="P", no_native=True, cost=4, assumes=_ASSUME, bound="structure %s, every chain" % _s)(_mk_chain(_s))
-    group(["C03"], "amp.assembly/group/%s" % _s,
+    group(["C03", "C01"], "amp.assembly/group/%s" % _s,
           ["amp.core:DecayGroup.get_amp", "amp.core:DecayGroup.sum_amp", "amp.core:DecayGroup.get_amp3", "amp.core:DecayGroup.set_used_chains", "amp.core:DecayGroup.set_used_res",
            "amp.amp:AmplitudeModel.__call__", "amp.amp:AmplitudeModel.set_used_chains", "amp.amp:AmplitudeModel.set_used_res"],
           env="shim", kind="P", no_native=True, cost=4, assumes=_ASSUME, bound="structure %s, every non-empty subset of chains and of resonances" % _s)(_mk_group(_s))
